@@ -21,6 +21,10 @@ structure Obs where
   for every notification whose old and new payload differ (same type and `==` in Python), and for no other;
   judged by the harness, `true` in the model -/
   chg : Bool := true
+  /-- the list view *through which* the mutations were made (one `ListProxy` object kept across the calls, until
+  a wholesale replacement) lists the same objects as a freshly fetched view; judged by the harness, `true` in
+  the model (whose state has a single list of objects) -/
+  held : Bool := true
   deriving Repr, DecidableEq
 
 def Obs.st (o : Obs) (c : Bool) : St := { objs := o.list, names := o.names, checkOnSet := c }
@@ -57,6 +61,11 @@ def viewsOk (o : Obs) (c : Bool) (univ : List Obj) : Option String :=
     some "accepted values differ from the current objects"
   else none
 
+/-- the operations for which `notification_payload` is stated (in-place mutations of an existing view) -/
+def payloadCovered : Op → Bool
+  | .replaceList _ | .replaceDict _ | .setKey _ _ | .update _ | .assign _ => false
+  | _ => true
+
 /-- conclusions about one call, given the observation before and after -/
 def callOk (prev cur : Obs) (c : Bool) (op : Op) : Option String :=
   let mutator := match op with
@@ -65,10 +74,16 @@ def callOk (prev cur : Obs) (c : Bool) (op : Op) : Option String :=
     | _ => true
   if !cur.chg then
     some "a changes-only watcher of `objects` was not notified exactly when the objects changed"
+  else if !cur.held && cur.err.isNone then
+    some "the list view through which the mutation was made lists other objects than the Selector's own views"
   else if cur.err.isNone && mutator && cur.notifs.length != 1 then
     some s!"{cur.notifs.length} notifications for one successful mutation"
   else if (cur.err.isSome || !mutator) && !cur.notifs.isEmpty then
     some "notification without a successful mutation"
+  else if cur.err.isNone && mutator && payloadCovered op &&
+      cur.notifs != [(payloadOld (prev.st c), payloadNew (cur.st c))] then
+    -- theorem `notification_payload`: the event carries the view before and the view after the call
+    some "the notification does not carry the objects before and after the mutation"
   else match op with
   | .popIdx i =>
     match normIdx prev.list.length i with
